@@ -321,7 +321,7 @@ def h_kill(ctx):
         store.storeSession(5, 1, Tok(old))
         store.storeSession(6, 1, Tok(b"neighbour"))
         abandon(fake)
-        repo = os.environ.get("YOWSUP_REPO", "/repo")
+        repo = (os.environ.get("YOWSUP_REPO") or "/repo")
         child = os.path.join(os.path.dirname(os.path.abspath(__file__)), "c13_child.py")
         py = sys.executable                  # the interpreter of this check (overlay environment with the library's dependencies)
         r = subprocess.run([py, child, repo, path, op, str(size), die_at], stdout=subprocess.PIPE, stderr=subprocess.STDOUT, timeout=120)
